@@ -55,6 +55,7 @@ class _Tunnel(Interface):
     """Class for handling KNX/IP tunnels."""
 
     __slots__ = (
+        "_connecting",
         "_data_endpoint_addr",
         "_disconnect_requested",
         "_heartbeat",
@@ -94,6 +95,7 @@ class _Tunnel(Interface):
         self.cemi_received_callback = cemi_received_callback
         self._data_endpoint_addr: tuple[str, int] | None = None
         self._disconnect_requested = False
+        self._connecting = False
         self._heartbeat = ConnectionHeartbeat(
             name="Tunnel",
             send_connectionstate=self._connectionstate_request,
@@ -139,6 +141,7 @@ class _Tunnel(Interface):
         self.xknx.connection_manager.connection_state_changed(
             XknxConnectionState.CONNECTING, self.connection_type
         )
+        self._connecting = True
         try:
             await self.transport.connect()
             await self.setup_tunnel()
@@ -157,6 +160,8 @@ class _Tunnel(Interface):
             raise CommunicationError(
                 "Tunnel connection could not be established"
             ) from ex
+        finally:
+            self._connecting = False
 
         self._tunnel_established()
         self.xknx.connection_manager.connection_state_changed(
@@ -174,6 +179,10 @@ class _Tunnel(Interface):
         if self._disconnect_requested:
             # `disconnect()` is tearing the tunnel down already - a DisconnectRequest
             # of the server or a lost transport crossing it shall not reconnect
+            return
+        if self._connecting:
+            # a connection attempt is in progress - it fails by itself when the
+            # transport it uses is lost; a reconnect would run concurrently to it
             return
         if self.auto_reconnect:
             # _tunnel_lost might be called multiple times when the transport receives
